@@ -485,7 +485,18 @@ func mutate(rg *rng, src string) (string, string) {
 			return insertAt(rg, src, rg.pick([]string{"/(/ {\n}", "/[a-/ {\n}", "/a{2,1}/ {\n}", "/x**/ {\n}"})), "regexInvalid"
 		case 8:
 			// the limit is in bytes: over-long patterns of one-byte, two-byte and three-byte characters
-			return insertAt(rg, src, "/"+rg.pick([]string{strings.Repeat("a", 1025), strings.Repeat("é", 600), strings.Repeat("日", 400), strings.Repeat("a", 1000) + strings.Repeat("ü", 13)})+"/ {\n}"), "regexTooLong"
+			// ... and patterns that are over the limit only as a whole: concatenations of literals, of
+			// constants, of strings on the right of a match operator
+			a6, b6 := strings.Repeat("a", 600), strings.Repeat("b", 600)
+			return insertAt(rg, src, rg.pick([]string{
+				"/" + strings.Repeat("a", 1025) + "/ {\n}",
+				"/" + strings.Repeat("é", 600) + "/ {\n}",
+				"/" + strings.Repeat("日", 400) + "/ {\n}",
+				"/" + strings.Repeat("a", 1000) + strings.Repeat("ü", 13) + "/ {\n}",
+				"/" + a6 + "/ + /" + b6 + "/ {\n}",
+				"const ZZA /" + a6 + "/\n/^x/ + ZZA + /" + b6 + "/ {\n}",
+				"/^(?P<zzw>\\S+)/ {\n  $zzw =~ \"" + a6 + "\" + \"" + b6 + "\" {\n  }\n}",
+			})), "regexTooLong"
 		case 9, 10: // integer division or modulus by the literal zero
 			for _, d := range decls {
 				if (d.kind == "counter" || d.kind == "gauge") && !strings.Contains(d.rest, " by ") {
@@ -519,6 +530,14 @@ func init() {
 			// the recorded finding: the first token after a comment line carries a stale start column
 			g.emit(c24Case("nextOutside", "# a comment line\nnext\n")...)
 			g.emit(c24Case("undeclared", "counter a\n/x/ {\n  a++\n  # note\n  zz++\n}\n")...)
+			// over the length limit only as a whole
+			{
+				a6, b6 := strings.Repeat("a", 600), strings.Repeat("b", 600)
+				g.emit(c24Case("regexTooLong", "counter a\n/"+a6+"/ + /"+b6+"/ {\n  a++\n}\n")...)
+				g.emit(c24Case("regexTooLong", "counter a\nconst P /"+a6+"/\n/^x/ + P + /"+b6+"/ {\n  a++\n}\n")...)
+				g.emit(c24Case("regexTooLong", "counter a\n/^(?P<w>\\S+)/ {\n  $w =~ \""+a6+"\" + \""+b6+"\" {\n    a++\n  }\n}\n")...)
+				g.emit(c24Case("-", "counter a\n/"+strings.Repeat("a", 500)+"/ + /"+strings.Repeat("b", 500)+"/ {\n  a++\n}\n")...)
+			}
 			c, _ := compiler.New()
 			for _, b := range bases {
 				g.emit(c24Case("-", b)...)
